@@ -139,6 +139,12 @@ func (ke *kindEnv) base(st *pstate, a *Sym) KindSet {
 			return ksAll
 		}
 		args := symArgs(st, a)
+		if ke.prog != nil && ke.prog.InModule(fn) {
+			derefPostcondition(ke.prog)
+			if forb, ok := derefPost[fn]; ok {
+				return ksAll &^ forb
+			}
+		}
 		switch {
 		case isReflectFunc(fn, "ValueOf"):
 			if len(args) == 1 {
